@@ -186,6 +186,7 @@ def run(ctx):
     branch(ctx, mc)
     elementwise(ctx, mc)
     state(ctx, mc)
+    state_pairs(ctx, mc)
     powers(ctx, mc)
     formal_level(ctx, mc)
     aliases(ctx, mc)
@@ -647,6 +648,43 @@ def state(ctx, mc):
                 bad, fact = True, {'raises': exc.exc_name, 'message': exc.msg[:120]}
             rep.check(not bad, 'R-STATE', 'multicomplex.Bicomplex.%s' % mname, where_of(mc, mname), fact,
                       'the value a fresh object with the same components gives', label, key='state %s' % mname)
+
+
+def state_pairs(ctx, mc):
+    """One elementary function called after another on the same object (scalar components): the second result is what a
+    fresh object with the same components gives - nothing one function leaves on the object may steer another."""
+    rep = ctx.rep
+    names = ('sin', 'cos', 'sinh', 'cosh', 'exp')
+    z1s, z2s = Poly.sym('z1'), Poly.sym('z2')
+
+    def comps_of(I, r):
+        return [I.getattr(r, 'z1'), I.getattr(r, 'z2')]
+
+    def unwrap(v):
+        return v.item() if isinstance(v, Arr) and v.size == 1 else v
+    for first in names[:5]:
+        for second in names:
+            if first == second:
+                continue
+            label = 'z.%s(); z.%s()' % (first, second)
+            try:
+                I, models = make_interp(ctx.repo, exppoly_ufunc)
+                cref = I.get_global('multicomplex', 'Bicomplex')
+                z = cref(z1s, z2s)
+                I.getattr(z, first)()
+                got = [unwrap(v) for v in comps_of(I, I.getattr(z, second)())]
+                I2, models2 = make_interp(ctx.repo, exppoly_ufunc)
+                fresh = [unwrap(v) for v in comps_of(I2, I2.getattr(I2.get_global('multicomplex', 'Bicomplex')(z1s, z2s), second)())]
+                bad = [k for k in range(2) if not same(got[k], fresh[k])]
+                fact = {'components_that_differ': bad, 'after_the_other_call': repr(got[bad[0]])[:120] if bad else None,
+                        'fresh': repr(fresh[bad[0]])[:120] if bad else None}
+            except (AlgebraError, TypeError, AttributeError, AnalysisError) as exc:
+                rep.undecided('R-STATE', 'multicomplex.Bicomplex.%s' % second, {'cannot_evaluate': str(exc)[:160]}, label)
+                continue
+            except InterpRaise as exc:
+                bad, fact = True, {'raises': exc.exc_name, 'message': exc.msg[:120]}
+            rep.check(not bad, 'R-STATE', 'multicomplex.Bicomplex.%s' % second, where_of(mc, second), fact,
+                      'the value a fresh object with the same components gives', label, key='state pair %s' % second)
 
 
 def drop_branch(v):
